@@ -64,19 +64,30 @@ int main(int argc, char** argv) {
     ells.push_back({"f=+1/50", aW, 0.02, false, 30e-9});
     ells.push_back({"f=-1/50", aW, -0.02, false, 30e-9});
     ells.push_back({"a=1 f=1/150", 1.0, 1 / 150.0, false, 25e-9 / aW});
+    ells.push_back({"f=+0.01", aW, 0.01, false, 25e-9});
+    ells.push_back({"f=-0.01", aW, -0.01, false, 25e-9});
+    ells.push_back({"f=+0.2 exact", aW, 0.2, true, 40e-9});
+    ells.push_back({"f=-0.25 exact", aW, -0.25, true, 40e-9});
+    ells.push_back({"a=1e9 f=-1/150", 1e9, -1 / 150.0, false, 25e-9 * (1e9 / aW)});
   }
   std::vector<Centre> centres = {{0, 0}, {40, -75}, {90, 0}, {-89.9, 123}, {30, 0}, {-35, 179.5}};
-  if (T) { centres.push_back({-90, 50}); centres.push_back({1e-10, -179.9}); centres.push_back({89.99999, 45}); centres.push_back({60, 100}); }
+  if (T) { centres.push_back({-90, 50}); centres.push_back({1e-10, -179.9}); centres.push_back({89.99999, 45}); centres.push_back({60, 100});
+    for (Centre c : {Centre{90, 180}, Centre{-90, -180}, Centre{-90, 0}, Centre{0, 180}, Centre{0, -180}, Centre{45, 180}, Centre{-30, -180}, Centre{-60, -20}, Centre{15, 90}}) centres.push_back(c); }
   std::vector<double> bearings; for (int k = -7; k <= 8; ++k) bearings.push_back(22.5 * k);
   bearings.push_back(1e-9); bearings.push_back(90 - 1e-7); bearings.push_back(-135.3);
   // ranges in units of a/6378137 m
   std::vector<double> ranges = {0, 1e-6, 1, 1e3, 1e6, 5e6, 6.4e6, 9e6, 9.9e6, 1.1e7, 1.5e7, 1.9e7, 1.99e7};
-  if (T) { ranges.push_back(1e-3); ranges.push_back(3e6); ranges.push_back(9.99e6); ranges.push_back(2.5e7); ranges.push_back(4.5e7); }
-  ctx.bound("proj.ellipsoids", T ? "sphere, WGS84, f=+-0.1 (Geodesic exact=true), f=+-1/50, (a=1,f=1/150)" : "sphere, WGS84");
-  ctx.bound("proj.centres", T ? "(0,0) (40,-75) (90,0) (-89.9,123) (30,0) (-35,179.5) (-90,50) (1e-10,-179.9) (89.99999,45) (60,100)" : "(0,0) (40,-75) (90,0) (-89.9,123) (30,0) (-35,179.5)");
+  if (T) { ranges.push_back(1e-3); ranges.push_back(3e6); ranges.push_back(9.99e6); ranges.push_back(2.5e7); ranges.push_back(4.5e7);
+    // dense around the gnomonic horizon (quarter circumference ~ 1.0002e7 m) ...
+    for (double r : {9.5e6, 9.8e6, 9.95e6, 9.995e6, 1.0e7, 1.0005e7, 1.001e7, 1.002e7, 1.005e7, 1.01e7, 1.05e7}) ranges.push_back(r);
+    // ... and around the antipode (pi b = 1.99703e7, pi a = 2.00375e7 m on WGS84) for the azimuthal equidistant
+    for (double r : {1.95e7, 1.995e7, 1.9969e7, 1.998e7, 2.0e7, 2.003e7, 2.0037e7, 2.005e7, 2.01e7, 2.1e7}) ranges.push_back(r); }
+  ctx.bound("proj.ellipsoids", T ? "sphere, WGS84, f=+-0.1, +0.2, -0.25 (Geodesic exact=true), f=+-1/50, +-0.01, (a=1,f=1/150), (a=1e9,f=-1/150)" : "sphere, WGS84");
+  ctx.bound("proj.centres", T ? "(0,0) (40,-75) (90,0) (-89.9,123) (30,0) (-35,179.5) (-90,50) (1e-10,-179.9) (89.99999,45) (60,100) (90,180) (-90,-180) (-90,0) (0,180) (0,-180) (45,180) (-30,-180) (-60,-20) (15,90)" : "(0,0) (40,-75) (90,0) (-89.9,123) (30,0) (-35,179.5)");
   ctx.bound("proj.bearings", "k*22.5 deg for k=-7..8, 1e-9, 90-1e-7, -135.3 (19 values)");
-  ctx.bound("proj.ranges", std::string("{0,1e-6,1,1e3,1e6,5e6,6.4e6,9e6,9.9e6,1.1e7,1.5e7,1.9e7,1.99e7") + (T ? ",1e-3,3e6,9.99e6,2.5e7,4.5e7" : "") + "} m x a/6378137 (1.1e7.. lie beyond the gnomonic horizon; 2.5e7, 4.5e7 are not shortest paths)");
-  ctx.bound("proj.cassini-grid", "easting {0,+-1e-6,+-1e3,+-1e6,+-5e6,+-9e6} x northing {0,+-1e3,+-1e6,+-5e6,+-1.1e7,+-1.9e7} m x a/6378137 (11 x 11)");
+  ctx.bound("proj.ranges", std::string("{0,1e-6,1,1e3,1e6,5e6,6.4e6,9e6,9.9e6,1.1e7,1.5e7,1.9e7,1.99e7") + (T ? ",1e-3,3e6,9.99e6,2.5e7,4.5e7,9.5e6,9.8e6,9.95e6,9.995e6,1e7,1.0005e7,1.001e7,1.002e7,1.005e7,1.01e7,1.05e7,1.95e7,1.995e7,1.9969e7,1.998e7,2e7,2.003e7,2.0037e7,2.005e7,2.01e7,2.1e7" : "") + "} m x a/6378137 (1.1e7.. lie beyond the gnomonic horizon; 2.5e7, 4.5e7 are not shortest paths)");
+  ctx.bound("proj.cassini-grid", T ? "easting {0,+-1e-6,+-10,+-1e3,+-1e6,+-3e6,+-5e6,+-7e6,+-8.5e6,+-9e6} x northing {0,+-10,+-1e3,+-1e6,+-3e6,+-5e6,+-9.9e6,+-1e7,+-1.0002e7,+-1.1e7,+-1.5e7,+-1.9e7} m x a/6378137 (19 x 23)"
+                                     : "easting {0,+-1e-6,+-1e3,+-1e6,+-5e6,+-9e6} x northing {0,+-1e3,+-1e6,+-5e6,+-1.1e7,+-1.9e7} m x a/6378137 (11 x 11)");
   ctx.note("tolerances: 2 x documented geodesic accuracy (15 nm series WGS84/sphere, 30 nm |f|=1/50, 40 nm exact) per geodesic leg compared "
            "(reference + library: 2 legs az-eq/gnomonic, 4 legs Cassini), amplified by the derivative of the map where the map is not an isometry "
            "(1/M12^2 for the gnomonic radius, 1/M12 for the Cassini northing)");
@@ -90,15 +101,19 @@ int main(int argc, char** argv) {
     const double sc = E.a / aW;
     const double tol = 2 * 2 * E.gdoc;                     // two geodesic solutions compared, 2 x documented each
     const double b = E.a * (1 - E.f);
-    const double rshort = 0.98 * (double)PI * std::min(E.a, b);   // below this every geodesic is the unique shortest one
+    // below this every geodesic is the unique shortest one: the injectivity radius is >= pi / sqrt(Kmax) (Klingenberg; the shortest
+    // closed geodesic is longer), Kmax = 1/b^2 (oblate, equator) or b^2/a^4 (prolate, poles), i.e. pi * min(b, a^2/b)
+    const double rshort = 0.98 * (double)PI * std::min(b, E.a * E.a / b);
     for (double bear : bearings) for (double r0 : ranges) {
       Ctx::Case cs(ctx);
       const double r = r0 * sc;
       std::string id = std::string(E.name) + " c=(" + fmt(C.lat) + "," + fmt(C.lon) + ") bearing=" + fx(bear) + " range=" + fx(r);
       mc::Fields F = {{"kind", ""}, {"ellipsoid", E.name}};
-      auto failk = [&](const char* kind, const std::string& msg) { F[0].second = kind; ctx.fail("azeq " + id + " " + kind, msg, F); };
+      auto failk = [&](const char* kind, const std::string& msg) { F[0].second = kind; ctx.count(std::string("failclass.") + kind + "." + E.name + "." + F.back().second); ctx.fail("azeq " + id + " " + kind, msg, F); };
       double lat2, lon2, azi2, m12, M12, M21;
       g.Direct(C.lat, C.lon, bear, r, lat2, lon2, azi2, m12, M12, M21);
+      // regime label (only used to key known findings): nearly equatorial, nearly antipodal geodesic on a prolate ellipsoid
+      F.push_back({"regime", (E.f < 0 && std::fabs(C.lat) <= 1e-6 && std::fabs(lat2) <= 1e-6 && r > rshort) ? "prolate-equatorial-antipodal" : "general"});
       ld sb, cb; sincosd_l(bear, sb, cb);
       const double xr = (double)(r * sb), yr = (double)(r * cb);
       const V3 P = pos3(E, lat2, lon2), tP = dir3(lat2, lon2, azi2);
@@ -148,7 +163,9 @@ int main(int argc, char** argv) {
           // effect as a length, |rk - 1| * s, is what is bounded
           double ek = r > 0 ? std::fabs(rkf * r - m12) : std::fabs(rkf - 1) * s;
           ctx.worstf("azeq.forward.rk_err_over_tol", ek / tol, [&] { return id; });
-          if (!(ek <= tol)) failk("forward-rk", "Forward rk " + fx(rkf) + " is not m12/s12 = " + fx(r > 0 ? m12 / r : 1.0));
+          if (r == 0 && !std::isfinite(rkf))
+            failk("forward-rk-near-origin", "Forward(lat0,lon0," + fx(lat2) + "," + fx(lon2) + ") (the centre moved by at most an ulp) returns rk = " + fmt(rkf) + "; the reciprocal scale at the centre is 1");
+          else if (!(ek <= tol)) failk("forward-rk", "Forward rk " + fx(rkf) + " is not m12/s12 = " + fx(r > 0 ? m12 / r : 1.0));
         } else {
           // not (necessarily) a shortest path: the shortest distance cannot exceed the generating one
           if (!(s <= r + tol)) failk("forward-longer", "hypot(x,y) = " + fx(s) + " exceeds the length " + fx(r) + " of a geodesic joining the points");
@@ -182,7 +199,7 @@ int main(int argc, char** argv) {
     const double sc = E.a / aW;
     const double tol = 2 * 2 * E.gdoc;
     const double b = E.a * (1 - E.f);
-    const double rshort = 0.98 * (double)PI * std::min(E.a, b);
+    const double rshort = 0.98 * (double)PI * std::min(b, E.a * E.a / b);
     for (double bear : bearings) for (double r0 : ranges) {
       Ctx::Case cs(ctx);
       const double r = r0 * sc;
@@ -293,8 +310,10 @@ int main(int argc, char** argv) {
 
   // ================================================================ Cassini-Soldner
   ctx.sub("cassini");
-  const std::vector<double> xs = {0, 1e-6, -1e-6, 1e3, -1e3, 1e6, -1e6, 5e6, -5e6, 9e6, -9e6};
-  const std::vector<double> ys = {0, 1e3, -1e3, 1e6, -1e6, 5e6, -5e6, 1.1e7, -1.1e7, 1.9e7, -1.9e7};
+  std::vector<double> xs = {0, 1e-6, -1e-6, 1e3, -1e3, 1e6, -1e6, 5e6, -5e6, 9e6, -9e6};
+  std::vector<double> ys = {0, 1e3, -1e3, 1e6, -1e6, 5e6, -5e6, 1.1e7, -1.1e7, 1.9e7, -1.9e7};
+  if (T) { for (double v : {10.0, 3e6, 7e6, 8.5e6}) { xs.push_back(v); xs.push_back(-v); }
+           for (double v : {10.0, 3e6, 9.9e6, 1.0e7, 1.0002e7, 1.5e7}) { ys.push_back(v); ys.push_back(-v); } }
   for (const Ell& E : ells) for (const Centre& C : centres) {
     if (!ctx.take()) continue;
     const Geodesic g(E.a, E.f, E.exact);
@@ -303,7 +322,8 @@ int main(int argc, char** argv) {
     const double tol = 4 * 2 * E.gdoc;                     // two legs in the reference + two in the library
     const double b = E.a * (1 - E.f);
     double qm; g.Inverse(0, 0, 90, 0, qm);                 // quarter meridian
-    const double xlim = 0.9 * (double)PI / 2 * std::min(E.a, b), ylim = 0.98 * 2 * qm;
+    // the foot of the perpendicular is the closest meridian point while |x| is below the focal distance >= (pi/2) / sqrt(Kmax)
+    const double xlim = 0.9 * (double)PI / 2 * std::min(b, E.a * E.a / b), ylim = 0.98 * 2 * qm;
     {
       Ctx::Case cs(ctx);
       // accessors and the uninitialised object (documented: the routines do nothing)
@@ -360,6 +380,10 @@ int main(int argc, char** argv) {
         ctx.worstf("cassini.forward.construction_err_over_tol", e / tol, [&] { return id; });
         if (!(e <= tol)) failk("forward-construction", "going north y=" + fx(yf) + " then east x=" + fx(xf) + " arrives " + fmt(e) + " m from (" + fmt(latr) + "," + fmt(lonr) + ")");
         double ed = (double)norm(dir3(latr, lonr, azf) - dir3(la, lo, az2)) * E.a;
+        // documented exception ("a small class of points for which there may be two equally short routes"): a point on the
+        // equator beyond the focal distance has a northern and a southern route of equal length; the azimuth returned may
+        // belong to either
+        if (std::fabs(latr) <= 1e-9 && !inside && !(ed <= tol)) { ctx.count("cassini.two-equal-routes-azi-not-compared"); ed = 0; }
         ctx.worstf("cassini.forward.azi_err_over_tol", ed / tol, [&] { return id; });
         if (!(ed <= tol)) failk("forward-azi", "Forward azi " + fx(azf) + " is not the arrival azimuth " + fx(az2) + " of the easting geodesic");
         double ek = std::fabs(rkf - M2) * E.a;
